@@ -3,7 +3,7 @@ by the real code; TLC judges (input view, step list, output view)."""
 import json
 
 from harness import core, project as P
-from harness.common import pmap, build, score_abs, via4, canonical_in, perturb_returned_defaults
+from harness.common import pmap, build, score_abs, via4, canonical_in, doubled, perturb_returned_defaults
 
 core.import_scoda()
 
@@ -15,8 +15,12 @@ def execute(case):
     idx, score, steps = case
     line = {"steps": steps, "in": [], "out": [], "outRel": [], "raised": "", "case": {"score": score, "steps": steps}}
     try:
-        seq = build(score, via4(idx))
-        line["in"] = canonical_in(seq, score)
+        if idx % 11 == 10:      # the score played twice: one object concatenated with itself (shared Message objects)
+            seq = doubled(score)
+            line["in"] = P.raw_abs(seq)
+        else:
+            seq = build(score, via4(idx))
+            line["in"] = canonical_in(seq, score)
         perturb_returned_defaults()
         if steps == list(DEFAULT_STEPS) and idx % 2:
             seq.quantise()            # the default grid through the default argument
